@@ -231,7 +231,11 @@ ShadowProg(nm, i) ==
     \* the builtin is used in a folded expression first, re-bound afterwards, and the new meaning used in a later folded expression
     [] i = 39 -> <<G, Const("k", I(1)), Def("a", Bin("==", UU, Id("k"))), Def(nm, Id("g")), Ret(Arr(<<Id("a"), Bin("==", UU, Id("k")), UU>>))>>
     [] i = 40 -> <<G, Const("k", I(1)), Def("w", Fn0(<<Def("a", Bin("==", UU, Id("k"))), Var(nm), Asg(nm, Id("g")), Ret(Arr(<<Id("a"), Bin("==", UU, Id("k"))>>))>>)), Ret(C0(Id("w")))>>
-NShadow == 40
+    \* the name is re-bound at top level / as parameter of the enclosing function; an inner function that binds nothing itself
+    \* uses it in an expression with a literal constant (the compiler's own folding pass decides from the inner scope)
+    [] i = 41 -> <<G, Const("k", I(1)), Def(nm, Id("g")), Def("f", Fn0(<<Ret(Arr(<<Bin("==", UU, Id("k")), Un("!", UU)>>))>>)), Ret(C0(Id("f")))>>
+    [] i = 42 -> <<G, Const("k", I(1)), Def("w", Fn(<<nm>>, FALSE, <<Def("f", Fn0(<<Ret(Bin("==", UU, Id("k")))>>)), Ret(C0(Id("f")))>>)), Ret(C1(Id("w"), Id("g")))>>
+NShadow == 42
 \* forms whose meaning (a param without argument) cannot be called with UU
 ShadowIdx == {x \in [f : {"shadow"}, nm : ShadowNames, i : 1..NShadow] : ~(x.i = 21)} \cup [f : {"shadow"}, nm : {"len"}, i : {21}]
 
@@ -512,6 +516,10 @@ FragSeqs == <<
   <<Global(<<"gv">>), If(Id("gv"), <<ExprS(I(1))>>, <<>>), Def("z", I(7)), For(<<Def("i", I(0))>>, Bin("<", Id("i"), I(2)), <<Inc("i")>>, <<ExprS(Id("i"))>>), If(Id("z"), <<ExprS(Id("z"))>>, <<>>)>>,
   \* a global written by one fragment and only read by later ones (also in a session made without a globals object)
   <<Global(<<"gv">>), Asg("gv", I(5)), ExprS(Id("gv")), Def("f", Fn0(<<Asg("gv", Bin("+", Id("gv"), I(1))), Ret(Id("gv"))>>)), ExprS(Arr(<<C0(Id("f")), Id("gv")>>))>>,
+  \* a closure made by a fragment that stores into no variable of its own (it is kept in a global / in a map field),
+  \* then an assignment to the variable it captured
+  <<Global(<<"gv">>), Def("x", I(1)), Asg("gv", Fn0(<<Inc("x"), Ret(Id("x"))>>)), Asg("x", I(10)), ExprS(Arr(<<C0(Id("gv")), Id("x")>>))>>,
+  <<Def("m", MapL(<<"k">>, <<I(0)>>)), Def("y", I(1)), AsgS(Id("m"), "get", Fn0(<<Ret(Id("y"))>>)), Asg("y", I(7)), ExprS(Arr(<<C0(Sel(Id("m"), "get")), Id("y")>>))>>,
   \* a session started with arguments whose first fragment declares a variadic parameter together with other variables
   ParamSeq,
   \* (a constant declaration emits no code: a fragment ending in one reports whatever value the statement before left, so it is not put last)
